@@ -160,7 +160,8 @@ def gen_session(rng, tier='quick', exact=None, alpha_kinds=('fixed', 'single', '
     rows = gen_prices(rng, assets, times, exact, data_start)
     cfg = {'start': start, 'end': end, 'universe': universe, 'alpha': alpha, 'cash': cash, 'rebal': rebal,
            'long_only': long_only, 'param': param, 'fee': fee, 'burn': burn, 'lookbacks': lookbacks}
-    if kind == 'fixed' and rng.random() < 0.35:
+    if kind in ('fixed', 'single') and rng.random() < 0.35:
+        # (for the universe-driven model: its documented, stored and unused data_handler option is given a handler that lists nobody)
         cfg['alpha_universe'] = True
     if rng.random() < 0.2:
         cfg['extra_portfolio'] = True
